@@ -772,7 +772,7 @@ def check_helper(c):
 STANDINS = {
     # name: (generator or None, enumerator or None, checker, quick n, thorough n, rule, bound)
     "to_unitless_lattice": (
-        gen_lattice, None, check_lattice, 700, 60000,
+        gen_lattice, None, check_lattice, 1200, 60000,
         "seeded: quantity = magnitude x product of integer powers of base/prefixed/compound units from the oracle table; "
         "two compatible targets built from *other* units of the same dimension, one target off by one power of one base unit. "
         "Checks exact ratio (rel 1e-9; 1e-6 with eV), multiply-back, composition via a third unit, linearity, element-wise "
@@ -796,7 +796,7 @@ STANDINS = {
         "exhaustive: m3, dm3, cm3, perMolar_perSecond, umol_per_J on default_units against hand-written SI values",
         "5 definitions"),
     "registry": (
-        gen_registry, None, check_registry, 250, 20000,
+        gen_registry, None, check_registry, 400, 20000,
         "seeded: random quantity (as above) in the SI, a cgs-like and random prefixed base-unit registries: "
         "get_physical_dimensionality == table exponents, default_unit_in_registry has the SI scale prod(reg scale**e), "
         "unitless_in_registry == SI value / that scale (scalars, mixed-unit lists, dimensionless ratios, plain numbers); "
@@ -809,17 +809,17 @@ STANDINS = {
         "has the same SI scale and dimension per entry; the serialised form is JSON-able",
         "every prefixed single-dimension unit of the oracle table"),
     "registry_roundtrip_random": (
-        gen_roundtrip, None, check_roundtrip, 200, 20000,
+        gen_roundtrip, None, check_roundtrip, 300, 20000,
         "seeded: all seven entries random prefixed units, 25% of entries scaled by a numeric factor, 10% the integer 1",
         "as above"),
     "backend": (
-        gen_backend, None, check_backend, 400, 20000,
+        gen_backend, None, check_backend, 600, 20000,
         "seeded: Backend('math'|'numpy'|default|module).f and patched_numpy.f for f in exp log sqrt sin cos tanh log10 expm1 log1p: "
         "a dimensionless ratio of two different units of one dimension (e.g. mM/M) is evaluated at magnitude*scale ratio "
         "(rel 1e-9*(1+|x|)); a dimensional argument raises; plain numbers, arrays, keyword arguments and constants pass through",
         "dimensionless value in [0.05, 8]"),
     "array_helpers": (
-        gen_helper, None, check_helper, 900, 60000,
+        gen_helper, None, check_helper, 1500, 60000,
         "seeded: allclose / linspace / logspace_from_lin / concatenate / tile / polyfit / polyval / uniform / compare_equality on "
         "arguments given in different compatible units == the numpy routine on SI magnitudes (rel 1e-9; polyfit 1e-7 on exactly "
         "polynomial data), result expressed in the unit of the first argument; allclose cases are a factor 50-100 away from the "
